@@ -1,4 +1,4 @@
-import Lt.Conc2
+import RedisGoModel.Conc.Conc2
 /-! Second corollary of the generic atomicity theorem, again in the property's words: of any number of concurrent
     SETNX on a missing key exactly one wins, and the key holds the winner's value. (0 encodes "missing".) -/
 namespace Cc
